@@ -2,8 +2,10 @@ package c02
 
 import (
 	"fmt"
+	"runtime"
 	"runtime/debug"
 	"sync"
+	"sync/atomic"
 	"testing"
 	"time"
 
@@ -510,15 +512,22 @@ func run(c Case) (pbt.Result, error) {
 		var wg sync.WaitGroup
 		sts := make([]*stats, len(c.Choices))
 		errs := make([]error, len(c.Choices))
-		start := make(chan struct{})
+		// the readers leave a spin gate together: their very first reads of the fresh message (which set up the read
+		// budget) overlap as closely as the scheduler allows
+		var gate, ready int32
 		for i := range c.Choices {
 			sts[i] = &stats{limitErrs: map[string]int{}}
 			wg.Add(1)
 			go func(i int) {
 				defer wg.Done()
-				<-start
 				w := newWalker(sts[i], c.Choices[i])
 				w.T = ^uint64(0) // per-reader sums are checked after the join
+				atomic.AddInt32(&ready, 1)
+				for spins := 0; atomic.LoadInt32(&gate) == 0; spins++ {
+					if spins > 1000 {
+						runtime.Gosched()
+					}
+				}
 				for rep := 0; rep < 4; rep++ {
 					p, perr := msg.Root()
 					if e := w.deref(p, perr, 0, 0, 0, "r"); e != nil {
@@ -528,7 +537,10 @@ func run(c Case) (pbt.Result, error) {
 				}
 			}(i)
 		}
-		close(start)
+		for spins := 0; atomic.LoadInt32(&ready) < int32(len(c.Choices)) && spins < 1_000_000; spins++ {
+			runtime.Gosched()
+		}
+		atomic.StoreInt32(&gate, 1)
 		if !pbt.WithCPUBudget(120*time.Second, wg.Wait) {
 			return res, pbt.Fail("hang/concurrent-readers", "concurrent readers did not finish")
 		}
